@@ -6995,6 +6995,7 @@ size_t ZSTD_compressSequences(ZSTD_CCtx* cctx,
     FORWARD_IF_ERROR(ZSTD_CCtx_init_compressStream2(cctx, ZSTD_e_end, srcSize), "CCtx initialization failed");
     /* Begin writing output, starting with frame header */
     frameHeaderSize = ZSTD_writeFrameHeader(op, dstCapacity, &cctx->appliedParams, srcSize, cctx->dictID);
+    FORWARD_IF_ERROR(frameHeaderSize, "Writing the frame header failed");
     op += frameHeaderSize;
     dstCapacity -= frameHeaderSize;
     cSize += frameHeaderSize;
